@@ -701,6 +701,19 @@ func (c *fileCtx) renderSet(s *Set) {
 	for _, m := range s.Members {
 		ms = append(ms, c.refExpr(m))
 	}
+	if len(s.BlankSibling) > 0 {
+		var bs []string
+		for _, m := range s.BlankSibling {
+			bs = append(bs, c.refExpr(m))
+		}
+		own, other := c.wire()+".NewSet("+strings.Join(ms, ", ")+")", c.wire()+".NewSet("+strings.Join(bs, ", ")+")"
+		if s.SiblingAfter {
+			c.pf("var %s, _ = %s, %s\n\n", s.Name, own, other)
+		} else {
+			c.pf("var _, %s = %s, %s\n\n", s.Name, other, own)
+		}
+		return
+	}
 	if s.Grouped {
 		c.pf("var (\n\tgroupedBefore%s = 1\n\t%s = %s.NewSet(%s)\n\tgroupedAfter%s = \"x\"\n)\n\n", s.Name, s.Name, c.wire(), strings.Join(ms, ", "), s.Name)
 		return
